@@ -7,12 +7,13 @@ Correspondence (model ≈ code): the history is executed on the real objects —
 through `Context.render_to_pipe` (→ `Site.render_to_pipe`, `_expand_upa`, error → 4.04/4.02
 conversion) or the legacy `Site.render` — with recording resources that report which instance
 ran, the `uri_path` it saw and the URI `get_request_uri()` reconstructs; the payload of the real
-WKCResource is parsed by a parser of our own.  The same history goes to the Lean model
-(`Site.modifyAt`, `Site.serve`, `Site.links`, `wkcRender`) and the outputs are diffed.
+WKCResource is taken byte for byte.  The same history goes to the Lean model
+(`Site.modifyAt`, `Site.serve`, `Site.links`, `wkcRender`, `linkFormatStr`) and the outputs are diffed.
 
 Oracle (independent reference, shares no code with aiocoap or the model): a dict-based mirror
 of the registrations with a reference router written from the property text, an RFC 3986 / RFC 7252
-§6.4 reader that turns every listed href back into Uri-Path values, and an RFC 6690 filter;
+§6.4 reader that turns every listed href back into Uri-Path values, an RFC 6690 link-format reader written from the
+ABNF (quoted-string with quoted-pairs), and an RFC 6690 filter;
 checks handler identity, stripped path, reconstructed URI, the unfiltered listing as a multiset of
 (path the href names, attributes) and the filtered listing against the links of the unfiltered one
 that match EVERY filter argument.
@@ -29,7 +30,9 @@ RULE = ("histories of 4..30 ops on a root Site: add resource / nested Site (<= 3
         "PathCapable leaf / WKCResource, remove, GET; registration paths of 0..3 components drawn "
         "from a small vocabulary (incl. the empty component and components with URI-reserved, "
         "link-format-delimiter, control and non-ASCII characters) and biased to share prefixes with / "
-        "extend / equal existing keys (nested sites at the empty path, resources at [''] included); "
+        "extend / equal existing keys (nested sites at the empty path, resources at [''] included); link "
+        "descriptions of 0..9 attributes whose values come from a vocabulary or are composed over RFC 6690's "
+        "quoted-string alphabet (backslash, quote, ',', ';', '<', '>', '=', space, TAB, non-ASCII, empty); "
         "request paths derived from registered full paths (as is, "
         "truncated, extended, with '' appended or inserted, one component replaced) or random; "
         "Uri-Path-Abbrev known/unknown/conflicting; /.well-known/core with no query, 1..3 RFC 6690 "
@@ -40,7 +43,11 @@ RULE = ("histories of 4..30 ops on a root Site: add resource / nested Site (<= 3
         "empty component, every filter pattern x attribute kind, every pair and selected triples of "
         "filter arguments selecting overlapping / disjoint subsets, every ASCII character and selected "
         "UTF-8 sequences as a path component (alone, below a nested site, as nested-site key), "
-        "[] / [''] / ['',''] resources x nested site keys [] / ['k'] / ['k','']. Non-trivial: at least one "
+        "[] / [''] / ['',''] resources x nested site keys [] / ['k'] / ['k',''], every ASCII character (alone, "
+        "doubled, first, inside, last) and every backslash/quote string up to length 3 as value of title, of a "
+        "custom attribute and as an rt entry, with other resources before, between and behind. The "
+        "/.well-known/core payload is compared byte for byte with the model and read by an own RFC 6690 reader "
+        "for the oracle. Non-trivial: at least one "
         "request answered by a handler and one registration below a nested site or one 4.04; "
         "distinct by full history.")
 TRUSTED = ["harness link-format parser and fake remote endpoint (harness/props/C17.py)"]
@@ -50,7 +57,11 @@ ASSUMPTIONS = [
     "network-path reference; RFC 7252 §6.4 turns '/' into NO Uri-Path, never into the lone ''): such "
     "registrations are generated and compared model~code, the oracle checks their routing and only "
     "the count and attributes of their links",
-    "attribute names are ASCII; names differing only in case are compared model~code only",
+    "attribute names are ASCII parmnames (RFC 5987 attr-char); names differing only in case are compared "
+    "model~code only",
+    "control characters inside attribute values are written raw by the code and read literally by the oracle's "
+    "reader (RFC 2616 allows them only as quoted-pair, RFC 7230 not at all; no framing depends on them)",
+    "the fake remote has no payload size limit: long listings are not cut into blocks (block-wise: C06)",
 ]
 
 VOCAB = ["a", "b", "c", "ab", "abc", "x", "core", ".well-known", "sensors", "temp", "ä", "日本",
